@@ -373,6 +373,14 @@ def check_partial(col, scratch, writer):
     args = {"one_file": os.path.join(ds, "part.1.parquet"), "glob_some": os.path.join(ds, "part.[23].parquet"),
             "glob_all": os.path.join(ds, "part.*.parquet"), "glob_two_digit": os.path.join(ds, "part.1?.parquet"),
             "list_other_order": [os.path.join(ds, "part.3.parquet"), os.path.join(ds, "part.0.parquet")]}
+    if writer == "to_parquet":
+        # a dataset that grew: the second half of the rows appended to it by a later to_parquet(append=True)
+        import dask.dataframe as dd
+        P = make_frame(16)
+        grown = os.path.join(base, "grown.parq")
+        dd.from_pandas(P.iloc[:8], npartitions=3).to_parquet(grown)
+        dd.from_pandas(P.iloc[8:], npartitions=2).to_parquet(grown, append=True)
+        args["appended"] = grown
     for tag, arg in args.items():
         for geometry in (None, "pts"):
             active = geometry or "polys"
@@ -385,6 +393,8 @@ def check_partial(col, scratch, writer):
                 ext = [extent_of(p[active]) for p in parts]
                 tb = tuple(float(v) for v in r[active].total_bounds)
                 want_tb = tuple(float(v) for v in whole[active].array.total_bounds)
+                if tag == "appended" and sorted(whole["val"].tolist()) != sorted(make_frame(16)["val"].tolist()):
+                    col.violation("partial.rows", case, f"appended dataset reads back rows {sorted(whole['val'].tolist())}")
                 if not same(tb, want_tb):
                     col.violation("partial.total_bounds", case, f"{tag}: total_bounds {tb} but the loaded rows extend over {want_tb}")
                 pbd = r[active].partition_bounds
